@@ -130,6 +130,14 @@ V("pop-no-fallback", "break", ["C01", "C08"], PR,
         triggered_propagators[previous_prop_idx] = False
         return previous_prop_idx
 """, "", "queue reported empty while the just-run propagator is flagged", "pop_propagator")
+V("pop-discards-self", "break", ["C01", "C08"], PR,
+  """    if previous_prop_idx != -1 and triggered_propagators[previous_prop_idx]:
+        # nothing else is queued: the propagator that just ran has been re-queued by its own write-back
+        triggered_propagators[previous_prop_idx] = False
+        return previous_prop_idx
+""", """    if previous_prop_idx != -1:
+        triggered_propagators[previous_prop_idx] = False
+""", "the self-requeued propagator is discarded (flag cleared) instead of being run again", "pop_propagator")
 V("addprop-ignores-entailed-neutral", "neutral", ["C07", "C01", "C08"], PR,
   "if not_entailed_propagators[prop_idx] and triggers[dom_idx, prop_idx] & events != 0:", "if triggers[dom_idx, prop_idx] & events != 0:",
   "disabled (entailed) constraints are woken again: useless executions, no behavioural change")
